@@ -9,8 +9,8 @@ import (
 	"runtime"
 	"strconv"
 
-	"verif/internal/fw"
-	_ "verif/internal/props"
+	"verif/lib/fw"
+	_ "verif/lib/props"
 )
 
 func main() {
